@@ -39,6 +39,16 @@ def fit_captured(spec):
         return m, X, list(cap.log)
 
 
+def try_fit(ctx, spec):
+    """fit under capture; a fit that raises on a sample of its own family (closed-form / own-optimiser / KDE classes) is a violation"""
+    try:
+        return fit_captured(spec)
+    except Exception as ex:
+        ctx.obligation(f'corr:fit:{spec["cls"]}', False, 'correspondence', f'fit raised {type(ex).__name__}: {ex}')
+        viol(ctx, f'corr:fit-raises-{type(ex).__name__}:{spec["cls"]}', f'{spec["cls"]}({spec["kwargs"]}).fit raised {type(ex).__name__}: {str(ex)[:200]}', spec, {}, '')
+        return None
+
+
 # ------------------------------------------------------------------------------------------------
 #  tiny parser for the printed constructor terms  KdeCtor <ds> "bw" "w"  /  DsResample (<ctor>) "size"
 # ------------------------------------------------------------------------------------------------
@@ -158,7 +168,10 @@ def correspondence(ctx, quick):
         n = int(rng.choice([6, 12, 25, 40]))
         X, desc, _ = univ.draw_family(rng, 'gaussian', n, loc=float(rng.uniform(-1e3, 1e3)), scale=float(10 ** rng.uniform(-2, 3)))
         spec = mkspec('GaussianUnivariate', X)
-        m, Xa, log = fit_captured(spec)
+        r = try_fit(ctx, spec)
+        if r is None:
+            continue
+        m, Xa, log = r
         for key in ('loc', 'scale'):
             y = float(m._params[key])
             goals.append({'term': f'dget (gen_gaussian_fit {rlist(X)}) 0 "{key}"%string', 'y': y,
@@ -171,7 +184,10 @@ def correspondence(ctx, quick):
         ctx.case(('gaussian-fit', rep), {'family': 'gaussian', 'generator': desc, 'n': n, 'impl': {k: float(v) for k, v in m._params.items()}}, True)
         X, desc, _ = univ.draw_family(rng, 'uniform', n, loc=float(rng.uniform(-1e3, 1e3)), scale=float(10 ** rng.uniform(-2, 3)))
         spec = mkspec('UniformUnivariate', X)
-        m, Xa, log = fit_captured(spec)
+        r = try_fit(ctx, spec)
+        if r is None:
+            continue
+        m, Xa, log = r
         vm(f'showqq (quniform_fit {qlist(X)})', ('uniform-fit', spec, m, None))
         ctx.case(('uniform-fit', rep), {'family': 'uniform', 'generator': desc, 'n': n, 'impl': {k: float(v) for k, v in m._params.items()}}, True)
     # ---------------- scipy MLE families: the call record
@@ -183,11 +199,10 @@ def correspondence(ctx, quick):
             n = int(rng.choice([30, 60, 200]))
             X, desc, _ = univ.draw_family(rng, fam, n)
             spec = mkspec(cls, X)
-            try:
-                m, Xa, log = fit_captured(spec)
-            except Exception as ex:
-                ctx.log(f'note: {cls}.fit raised {type(ex).__name__} on a {fam} sample (scipy fitter): {str(ex)[:80]}')
+            r = try_fit(ctx, spec)      # a sample drawn from a member of the family must be fittable
+            if r is None:
                 continue
+            m, Xa, log = r
             fits = [e for e in log if e['fn'] == 'fit']
             bad = []
             if len(fits) != 1:
@@ -227,7 +242,10 @@ def correspondence(ctx, quick):
         if mode in (1, 3):
             kw['maximum'] = float(np.ceil(X.max() + rng.uniform(0, 3)))
         spec = mkspec('TruncatedGaussian', X, kw)
-        m, Xa, log = fit_captured(spec)
+        r = try_fit(ctx, spec)
+        if r is None:
+            continue
+        m, Xa, log = r
         calls = [e for e in log if e['fn'] == 'fmin_slsqp']
         bad = []
         if len(calls) != 1:
@@ -278,7 +296,10 @@ def correspondence(ctx, quick):
         if ss is not None:
             kw['sample_size'] = n if ss == 'n' else ss
         spec = mkspec('GaussianKDE', X, kw, np_seed=int(rng.integers(0, 10 ** 6)))
-        m, Xa, log = fit_captured(spec)
+        r = try_fit(ctx, spec)
+        if r is None:
+            continue
+        m, Xa, log = r
         bad = kde_trace_problems(m, Xa, log, kde_terms, kw.get('sample_size'))
         xq = np.linspace(X.min(), X.max(), 5)
         with univ.Capture() as cap:
@@ -460,7 +481,11 @@ def search(ctx, quick):
                 sc = float(10 ** rng.uniform(-2, 3))
                 X, desc, cdf = univ.draw_family(rng, fam, n, loc=float(rng.uniform(-1e3, 1e3)) if sc > 1e-2 else 0.0, scale=sc)
                 spec = mkspec(cls, X)
-                m = univ.build(spec)
+                try:
+                    m = univ.build(spec)
+                except Exception as ex:
+                    hit(f'search:fit-raises-{type(ex).__name__}:{fam}', f'{cls}.fit raised {type(ex).__name__}: {str(ex)[:200]} (n={n}, generator {desc})', spec, {}, '')
+                    continue
                 xs = [Fraction(float(v)) for v in X]
                 if fam == 'gaussian':
                     mu = sum(xs) / len(xs)
@@ -502,6 +527,7 @@ def search(ctx, quick):
                     m = univ.build(spec)
                 except Exception as ex:
                     dkw.setdefault(fam, []).append((n, f'fit raised {type(ex).__name__}'))
+                    hit(f'search:fit-raises-{type(ex).__name__}:{fam}', f'{cls}.fit raised {type(ex).__name__}: {str(ex)[:200]} on n={n} draws of {desc}', spec, {}, '')
                     continue
                 # the stored parameters are scipy's MLE for that family (scipy's own naming: shapes, loc, scale), started as documented
                 import scipy.stats as st
@@ -545,7 +571,11 @@ def search(ctx, quick):
         for given in (False, True):
             kw = {'minimum': loc + a * sc, 'maximum': loc + b * sc} if given else {}
             spec = mkspec('TruncatedGaussian', X, kw)
-            m = univ.build(spec)
+            try:
+                m = univ.build(spec)
+            except Exception as ex:
+                hit(f'search:fit-raises-{type(ex).__name__}:truncated', f'TruncatedGaussian({kw}).fit raised {type(ex).__name__}: {str(ex)[:200]}', spec, {}, '')
+                continue
             p = {k: float(v) for k, v in m._params.items()}
             mn, mx = float(m.min), float(m.max)
             slo, shi = p['loc'] + p['a'] * p['scale'], p['loc'] + p['b'] * p['scale']
